@@ -323,10 +323,11 @@ Theorem unicast_delivery limit mk ns c m d a l :
   reachable limit mk ->
   m_dest m = Some d -> bytes_eqb d S_org_freedesktop_DBus = false -> owner_of ns d = Some a ->
   dispatch ns mk c m = Some (RDelivered l) ->
-  NoDup l /\ In a l /\
+  valid_type (m_type m) = true /\ NoDup l /\ In a l /\
   forall x, x <> a -> (In x l <-> exists r, In r mk /\ r_owner r = x /\ spec_matches ns (abs_rule r) (Some c) (Some a) m = true).
 Proof.
   intros Hr Hd Hnd Ho H. unfold dispatch in H. rewrite Hd, Hnd, Ho in H.
+  destruct (valid_type (m_type m)) eqn:Evt; cbn [negb] in H; [|discriminate]. split; [reflexivity|].
   destruct (get_recipients ns mk (Some c) (Some a) m) as [l0|] eqn:Eg; [|discriminate].
   inversion H; subst l; clear H.
   destruct (reachable_inv _ _ Hr) as [Hok _].
